@@ -10,6 +10,7 @@ mod c11;
 mod c12;
 mod c13;
 mod c14;
+mod c15;
 mod c16;
 mod eng;
 mod lark;
@@ -73,9 +74,9 @@ fn props() -> Vec<Prop> {
         run: c04::run_case,
     }, Prop {
         id: "C05",
-        rule: "grammars: hand-written corpus (a^n b^n, nested/sequenced parentheses, left-recursive expressions, S->SS|a|eps, mutual recursion, unit cycles, nullable chains, hidden left recursion, palindromes), three parametric grammars (expanded by parameter reachability), random grammars over ? * + {m,n} groups and references with unconfusable terminals; for each the engine is walked over every byte string up to max_len over the grammar alphabet plus a junk byte, and the accepting flag of every reachable prefix and the allowed/refused status of every next byte are compared with the proved Lean spec (cfg q); multi-byte tokens of a synthetic vocabulary are compared the same way at sampled prefixes; distinct non-trivial = distinct grammars walked",
-        quick_cases: 22,
-        thorough_cases: 120,
+        rule: "grammars: hand-written corpus (a^n b^n, nested/sequenced parentheses, left-recursive expressions, S->SS|a|eps, mutual recursion, unit cycles, nullable chains, hidden left recursion, palindromes), three parametric grammars (expanded by parameter reachability), random grammars over ? * + {m,n} groups and references with unconfusable terminals, 'nullable-web' grammars (many mutually dependent nullable symbols referenced in every index order, short strings); for each the engine is walked over every byte string up to max_len over the grammar alphabet plus a junk byte, and the accepting flag of every reachable prefix and the allowed/refused status of every next byte are compared with the proved Lean spec (cfg q); multi-byte tokens of a synthetic vocabulary are compared the same way at sampled prefixes; distinct non-trivial = distinct grammars walked",
+        quick_cases: 45,
+        thorough_cases: 160,
         gen: c05::gen_case,
         run: c05::run_case,
     }, Prop {
@@ -127,6 +128,13 @@ fn props() -> Vec<Prop> {
         thorough_cases: 320,
         gen: c14::gen_case,
         run: c14::run_case,
+    }, Prop {
+        id: "C15",
+        rule: "grammars: hand-written Lark grammars with captures / token limits / stop captures / alias chains / unit cycles / repetitions / inline %json, JSON-schema corpus (objects, arrays, prefixItems, anyOf/oneOf, $ref recursion, patternProperties), random CFGs, random Lark grammars, random JSON schemas; for each the rule graph before and after Grammar::optimize is dumped, the inlining certificate derived and re-checked by the Lean function checkInline (language equality for all strings by theorem inline_preserves); protected symbols must survive; on rejection the two grammars are compared on all terminal strings up to a bound; distinct non-trivial = distinct grammars in which at least one symbol was inlined",
+        quick_cases: 60,
+        thorough_cases: 600,
+        gen: c15::gen_case,
+        run: c15::run_case,
     }, Prop {
         id: "C16",
         rule: "even cases: random op sequences over three SimpleVob registers with sizes around 31/32/33/63/64/...; odd cases: random vocabularies (duplicates, empties, prefixes, marker tokens, long chains, 256-way fan-out) x random DFAs x start prefixes; distinct non-trivial = distinct (op, resulting register) pairs, distinct vocabularies, and distinct (vocab, dfa, start) with a mask that is neither empty nor full",
